@@ -29,7 +29,7 @@ macro_rules! core_ops4_impl {
             use super::ops::{finish_pub as finish, src_pub as src, windowed};
             #[allow(unused_imports)]
             use super::*;
-            use crate::c12::ops::Shape;
+            use crate::c12::ops::{Shape, draw};
             #[allow(unused_imports)]
             use poulpy_ckks::layouts::{
                 CKKSCiphertext, CKKSConstPlaintextConversion, CKKSPlaintextConversion, CKKSPlaintextCstRnx, CKKSPlaintextCstZnx,
@@ -270,10 +270,29 @@ macro_rules! core_ops4_impl {
                     (_, false) => sh.k_res as usize + bu,
                     (_, true) => eff_b,
                 };
-                let ld_pt = if (s >> 27) & 1 == 0 {
-                    ld_a
-                } else {
-                    (ld_a + (s >> 24) as usize % 5).saturating_sub(2).max(1)
+                // Plaintext precision, independent of the ciphertext's (the API only asks that the plaintext can be
+                // aligned: `ct.log_budget + pt.log_delta >= pt.max_k` for the sums, `ct.log_budget >= pt.log_delta` for
+                // the products): scaling equal / close to the ciphertext's, within one limb, at the limit the products
+                // accept, more than a limb above the ciphertext's (rejected when it exceeds the budget).
+                let lb_a = eff_a - ld_a;
+                let ld_pt = match (s >> 27) % 8 {
+                    0 | 1 => ld_a,
+                    2 | 3 => (ld_a + (s >> 24) as usize % 5).saturating_sub(2).max(1),
+                    4 => 1 + (s >> 24) as usize % bu,
+                    5 => lb_a.saturating_sub((s >> 24) as usize % 3).max(1),
+                    6 => (lb_a / 2).max(1),
+                    _ => ld_a + bu + (s >> 24) as usize % bu,
+                };
+                // ... and its budget (integer part): a few bits, about one limb, `log_delta + log_budget` exactly whole
+                // limbs, more than a limb below / at / above (by less or more than a limb) the ciphertext's budget;
+                // above it the alignment is impossible and the op returns an error (inadmissible)
+                let lb_pt = match (s >> 56) % 8 {
+                    0..=2 => (s >> 28) as usize % 6,
+                    3 => bu - 1 + (s >> 28) as usize % 3,
+                    4 => ld_pt.next_multiple_of(bu) - ld_pt,
+                    5 => lb_a.saturating_sub(bu + (s >> 28) as usize % bu),
+                    6 => lb_a.saturating_sub((s >> 28) as usize % 3),
+                    _ => lb_a + 1 + (s >> 28) as usize % (2 * bu),
                 };
                 let head = if !agg && (s >> 52) & 3 == 0 { bu } else { 0 };
                 // flags bit 0: the second operand is no wider than the first and the destination at least as
@@ -294,9 +313,11 @@ macro_rules! core_ops4_impl {
                     k_dst,
                     pt: CKKSMeta {
                         log_delta: ld_pt,
-                        log_budget: (s >> 28) as usize % 6,
+                        log_budget: lb_pt,
                     },
-                    bits: (s >> 32) as usize % (bu + 3),
+                    // zero, below one limb, whole limbs, several limbs, the whole width and beyond (rescale / div_pow2
+                    // reject what exceeds the budget, see `budget_bits`)
+                    bits: draw::bits(s >> 32, bu, eff_a.div_ceil(bu)),
                     head,
                 }
             }
@@ -343,17 +364,40 @@ macro_rules! core_ops4_impl {
                 pt
             }
 
-            /// Constant with both parts, real only, imaginary only, or (rarely) empty.
-            fn cst_rnx(sh: &Shape, tag: u8) -> CKKSPlaintextCstRnx<f64> {
+            /// Constant with both parts, real only, imaginary only, or (rarely) empty; values: fractions in (-1, 1),
+            /// exact zero, +-1, too small to survive the quantisation, negative, and with an integer part that fills
+            /// the plaintext's `log_budget` (the digit vector then has several significant limbs).
+            fn cst_rnx(sh: &Shape, tag: u8, pt: &CKKSMeta) -> CKKSPlaintextCstRnx<f64> {
                 let mut sx = src(sh.seed, tag);
-                let re = sx.next_f64(-1.0, 1.0);
-                let im = sx.next_f64(-1.0, 1.0);
+                let int_bits = pt.log_budget.saturating_sub(1).min(40) as i32;
+                let mut val = |k: u64| -> f64 {
+                    let x = sx.next_f64(-1.0, 1.0);
+                    match k % 8 {
+                        0 => 0.0,
+                        1 => 1.0,
+                        2 => -1.0,
+                        3 => x * 2f64.powi(-(pt.log_delta.min(1000) as i32) - 3),
+                        4 => x * 2f64.powi(int_bits),
+                        5 => -(x.abs() * 0.5 + 0.5) * 2f64.powi(int_bits),
+                        _ => x,
+                    }
+                };
+                let re = val(sh.seed >> 59);
+                let im = val((sh.seed >> 59) / 8 + tag as u64);
                 match (sh.seed >> 40) % 8 {
                     0 | 1 => CKKSPlaintextCstRnx::new(Some(re), None),
                     2 | 3 => CKKSPlaintextCstRnx::new(None, Some(im)),
                     4 => CKKSPlaintextCstRnx::new(None, None),
                     _ => CKKSPlaintextCstRnx::new(Some(re), Some(im)),
                 }
+            }
+
+            /// Slot rotation (the key is for `galois_element(rot)` = 5^|rot| * sign(rot) mod 2N): none, +-1, small,
+            /// around the N/2 slots, beyond, negative, large.
+            fn rotation(sh: &Shape) -> i64 {
+                let half = sh.n as i64 / 2;
+                let t = [1, 2, 3, 0, -1, -2, half - 1, half, half + 1, -(half - 1), 2 * half + 1, -(3 * half + 2), 1 << 20, -((1 << 20) + 1)];
+                t[((sh.seed >> 60) as usize * 8 + sh.extra as usize) % t.len()]
             }
 
             fn key_k(sh: &Shape, k_ct: usize) -> (u32, u32) {
@@ -651,12 +695,20 @@ macro_rules! core_ops4_impl {
                                 )
                             }
                             _ => {
-                                let cst = cst_rnx(sh, 31);
                                 // the digits of a quantized constant are injected as they are: they have to be
                                 // aligned to the receiver's log_budget (see to_znx_at_k)
                                 let into = kind.ends_with("_into");
                                 let offset = if into { p.eff_a.saturating_sub(dst.max_k().as_usize()) } else { 0 };
                                 let res_lb = lb_a.saturating_sub(offset);
+                                // (the integer part of the value fits the receiver's budget)
+                                let cst = cst_rnx(
+                                    sh,
+                                    31,
+                                    &CKKSMeta {
+                                        log_delta: p.pt.log_delta,
+                                        log_budget: p.pt.log_budget.min(res_lb),
+                                    },
+                                );
                                 let cst_z = cst.to_znx_at_k(b2k, res_lb + p.pt.log_delta, p.pt.log_delta).unwrap();
                                 let own = if add { m.ckks_add_pt_const_tmp_bytes() } else { m.ckks_sub_pt_const_tmp_bytes() };
                                 match kind {
@@ -711,7 +763,9 @@ macro_rules! core_ops4_impl {
                     "ckks_neg_into" | "ckks_mul_pow2_into" | "ckks_mul_pow2_assign" | "ckks_div_pow2_into" | "ckks_rescale_into" | "ckks_rescale_assign" => {
                         let mut a = enc(c, &sp, &p, p.eff_a, p.ld_a, seed, 10, &mut big);
                         let mut dst = alloc_ct(c, &p, p.k_dst);
-                        let bits = p.bits;
+                        // mul_pow2 takes any amount; rescale / div_pow2 consume budget: the whole budget exactly, or
+                        // (one draw in two of those beyond it) more than there is - an error, i.e. inadmissible
+                        let bits = if op.starts_with("ckks_mul_pow2") || p.bits <= lb_a || (seed >> 31) & 1 == 1 { p.bits } else { lb_a };
                         match op {
                             "ckks_neg_into" => go!(m.ckks_neg_tmp_bytes(), |s| m.ckks_neg_into(&mut dst, &a, s), ct_out(&dst)),
                             "ckks_mul_pow2_into" => {
@@ -784,7 +838,7 @@ macro_rules! core_ops4_impl {
                     "ckks_mul_pt_const_znx_into" | "ckks_mul_pt_const_znx_assign" | "ckks_mul_pt_const_rnx_into" | "ckks_mul_pt_const_rnx_assign" => {
                         let mut a = enc(c, &sp, &p, p.eff_a, p.ld_a, seed, 10, &mut big);
                         let mut dst = alloc_ct(c, &p, p.k_dst);
-                        let cst = cst_rnx(sh, 31);
+                        let cst = cst_rnx(sh, 31, &p.pt);
                         let cst_z = cst.to_znx(b2k, p.pt).unwrap();
                         match op {
                             "ckks_mul_pt_const_znx_into" => go!(
@@ -812,7 +866,7 @@ macro_rules! core_ops4_impl {
                     "ckks_rotate_into" | "ckks_rotate_assign" | "ckks_conjugate_into" | "ckks_conjugate_assign" => {
                         let mut a = enc(c, &sp, &p, p.eff_a, p.ld_a, seed, 10, &mut big);
                         let mut dst = alloc_ct(c, &p, p.k_dst);
-                        let rot = 1 + (sh.extra as i64 % 3);
+                        let rot = rotation(sh);
                         if op.starts_with("ckks_rotate") {
                             let mut keys: std::collections::HashMap<i64, GLWEAutomorphismKeyPrepared<DeviceBuf<BE>, BE>> =
                                 std::collections::HashMap::new();
@@ -896,7 +950,7 @@ macro_rules! core_ops4_impl {
                         let mut dst = enc(c, &sp, &p, p.k_dst, p.ld_a.min(p.k_dst / 2).max(1), seed, 50, &mut big);
                         let ptz = pt_znx(c, &p, p.pt, seed, 30);
                         let ptr = pt_rnx(c, seed, 30);
-                        let cst = cst_rnx(sh, 31);
+                        let cst = cst_rnx(sh, 31, &p.pt);
                         let cst_z = cst.to_znx(b2k, p.pt).unwrap();
                         match op {
                             "ckks_mul_add_pt_vec_znx_into" => go!(
@@ -1004,7 +1058,7 @@ macro_rules! core_ops4_impl {
                                 )
                             }
                             "ckks_dot_product_pt_const_znx" => {
-                                let cs: Vec<CKKSPlaintextCstZnx> = (0..cnt).map(|i| cst_rnx(sh, 31 + i as u8).to_znx(b2k, p.pt).unwrap()).collect();
+                                let cs: Vec<CKKSPlaintextCstZnx> = (0..cnt).map(|i| cst_rnx(sh, 31 + i as u8, &p.pt).to_znx(b2k, p.pt).unwrap()).collect();
                                 let cr: Vec<&CKKSPlaintextCstZnx> = cs.iter().collect();
                                 go!(
                                     m.ckks_dot_product_pt_const_tmp_bytes(&dst, a_wide, &p.pt),
@@ -1013,7 +1067,7 @@ macro_rules! core_ops4_impl {
                                 )
                             }
                             _ => {
-                                let cs: Vec<CKKSPlaintextCstRnx<f64>> = (0..cnt).map(|i| cst_rnx(sh, 31 + i as u8)).collect();
+                                let cs: Vec<CKKSPlaintextCstRnx<f64>> = (0..cnt).map(|i| cst_rnx(sh, 31 + i as u8, &p.pt)).collect();
                                 let cr: Vec<&CKKSPlaintextCstRnx<f64>> = cs.iter().collect();
                                 go!(
                                     m.ckks_dot_product_pt_const_tmp_bytes(&dst, a_wide, &p.pt),
@@ -1048,7 +1102,7 @@ macro_rules! core_ops4_impl {
                         }
                     }
                     "automorphism_key_encrypt_sk" | "automorphism_key_prepare" => {
-                        let gal = m.galois_element(1 + (sh.extra as i64 % 3));
+                        let gal = m.galois_element(rotation(sh));
                         if op == "automorphism_key_encrypt_sk" {
                             let mut atk: GLWEAutomorphismKey<Vec<u8>> = GLWEAutomorphismKey::alloc_from_infos(&atki);
                             let e = EncryptionLayout::new_from_default_sigma(atki).unwrap();
